@@ -28,7 +28,7 @@ ID = "C06"
 GEN_DEPENDS = ["PyBits"]
 RULE = ("operation histories (<= 14 ops) over 2-5 TreeArrays built from random trees (3-7 taxa, polytomies, basal "
         "bifurcations, None lengths, weights, ultrametric trees with node ages): add/insert(any index)/update/extend/+=/+ "
-        "incl. empties, self-merges, both rootings, explicit and implicit rooting, matching and mismatching settings, with interim "
+        "incl. empties, self-merges, reading several sources in one call (paths, handles, one string) with a burn-in, both rootings, explicit and implicit rooting, matching and mismatching settings, with interim "
         "summaries (consensus / MCC / summarize_splits_on_tree / restore_tree / the per-split summary tables in either order / "
         "frequencies) between the additions, and the same trees built one at a time next to the merged master; at the end every "
         "array's per-split edge-length and node-age summaries (tables and target-tree annotations: mean, median, sd, range) are read "
@@ -66,6 +66,10 @@ EXPLANATION = ("Theorems (Props/C06.lean) about the definitions drv_c06 runs: al
                "scores_den_pos proves that hypothesis for every array reachable by any history whose tree weights have positive "
                "denominators; mcc_of_obs: two aligned collections with the same observable and rows up to order report, through "
                "their own mccIndex, trees of the same (rational) score, and of the same topology when the maximiser is unique. "
+               "consensus_of_obs (+ _reachable): the sorted candidate list handed to the tree builder, order included, is a function of "
+               "the observable (insertion sort over a total, transitive order antisymmetric on distinct masks). "
+               "history_final_rooting_flags: final settings and rooting of every array. summaries_of_obs / summaries_of_histories: per-split "
+               "multisets, sizes, mean edge length and mean node age are functions of the observable (means also compared with the code). "
                "The ghost semantics ghostRun is printed by the driver and compared with the harness's book-keeping of held trees. "
                "async_sentinel_every_file_once / sumtrees_async_schedule_independent: queue-level worker protocol with asynchronous "
                "put (Model/C06Proto.lean, driver op async): with blocking get and one end marker per worker every schedule of "
@@ -295,6 +299,8 @@ def canon_impl(ta, theta_float, full):
                "lens": sorted([str(k), sorted(frs(x) for x in v)] for k, v in sd.split_edge_lengths.items() if v),
                "ages": sorted([str(k), sorted(frs(x) for x in v)] for k, v in sd.split_node_ages.items() if v)}
     c["freq"] = sorted([str(k), repr(float(v))] for k, v in sd.split_frequencies.items())
+    lens, ages = sd.split_edge_length_summaries, sd.split_node_age_summaries
+    c["means"] = sorted([str(k), lens[k]["mean"] if k in lens else None, ages[k]["mean"] if k in ages else None] for k in sd.split_counts)
     return c
 
 
@@ -335,6 +341,8 @@ def parse_dump(p):
                "lens": sorted(x for x in lens if x[1]), "ages": sorted(x for x in ages if x[1])}
     freq = p.lst(lambda: [p.tok(), p.tok()])
     c["freq"] = sorted([k, repr(float(Fraction(v)))] for k, v in freq)
+    means = p.lst(lambda: [p.tok(), p.tok(), p.tok()])
+    c["means"] = sorted([k, None if a == "N" else float(Fraction(a)), None if b == "N" else float(Fraction(b))] for k, a, b in means)
 
     def qs():
         n = int(p.tok())
@@ -344,6 +352,19 @@ def parse_dump(p):
     c["mccidx"] = int(p.tok())
     cons = p.lst(p.nat)
     return c, scores, sums, cons
+
+
+def means_differ(a, b):
+    """[[split, mean length | None, mean age | None]] equal to 1e-9"""
+    if len(a) != len(b):
+        return True
+    for x, y in zip(a, b):
+        if x[0] != y[0]:
+            return True
+        for u, v in zip(x[1:], y[1:]):
+            if (u is None) != (v is None) or (u is not None and not close(float(u), float(v))):
+                return True
+    return False
 
 
 def freq_differs(a, b):
@@ -656,6 +677,7 @@ def exec_history(ctx, dendropy, case):
     failed = False
     merged_nonempty = 0
     merged_empty = 0
+    tmpdir = [None]
 
     def fail(kind, what):
         ctx.fail(kind, what, case)
@@ -670,6 +692,76 @@ def exec_history(ctx, dendropy, case):
             # caches, so this is not an operation of the model's history)
             if op[1] < len(regs):
                 interim_query(dendropy, tns, regs[op[1]], oracle[op[1]], op[2])
+            continue
+        if name == "read":
+            # trees read from one or several sources in ONE call, with a burn-in (tree_offset) that applies to every source:
+            # for the model this is the one-at-a-time accession of the trees kept
+            if op[1] >= len(regs):
+                continue
+            d, offset, files, how, r = op[1], op[2], op[3], op[4], op[5]
+            o = oracle[d]
+            ta = regs[d]
+            if how == "data":
+                kept = [sp for f in files for sp in f][offset:]
+            else:
+                kept = [sp for f in files for sp in f[offset:]]
+            kept = [dict(sp, rooted=r) for sp in kept]
+            recs = [record(sp, want_ages=not o.sdflags[1]) for sp in kept]
+            hom, r0 = homogeneous(o.trees, list(zip(kept, recs)))
+            must = hom and (bool(o.trees) or o.decl is None or o.decl == r or not kept) and o.flags == o.sdflags
+            before = len(ta)
+            exc = None
+            kw = dict(schema="newick", tree_offset=offset, store_tree_weights=True,
+                      rooting={True: "force-rooted", False: "force-unrooted", None: None}[r])
+            try:
+                with time_limit(30):
+                    if how == "data":
+                        ta.read(data="\n".join(newick(sp) for f in files for sp in f) + "\n", **kw)
+                    else:
+                        if tmpdir[0] is None:
+                            tmpdir[0] = tempfile.mkdtemp(prefix="c06-")
+                        paths = []
+                        for fi, f in enumerate(files):
+                            pth = os.path.join(tmpdir[0], "r%d-%d.tre" % (k, fi))
+                            with open(pth, "w") as fh:
+                                fh.write("".join(newick(sp) + "\n" for sp in f))
+                            paths.append(pth)
+                        if how == "files":
+                            ta.read_from_files(files=paths, **kw)
+                        else:
+                            handles = [open(pth) for pth in paths]
+                            try:
+                                ta.read_from_files(files=handles, **kw)
+                            finally:
+                                for h in handles:
+                                    h.close()
+            except Exception as e:   # noqa
+                exc = e
+            j = max(0, min(len(ta) - before, len(kept)))
+            sent = j + (1 if exc is not None and j < len(kept) else 0)
+            for sp, rec in list(zip(kept, recs))[:sent]:
+                line += ["add", str(d)] + trec_tokens(rec)
+            nops += sent
+            results.extend(["ok"] * j)
+            o.trees = o.trees + list(zip(kept, recs))[:j]
+            if exc is not None:
+                res = err_name(exc)
+                results.append(res) if sent > j else None
+                if must and not failed:
+                    failed = True
+                    fail("add-rejected", "op %d: reading %d source(s) (burn-in %d, %d trees kept) into a compatible collection raised %s: %s" % (
+                        k, len(files), offset, len(kept), type(exc).__name__, str(exc)[:160]))
+                if res == "Assertion":
+                    o.asserted = True
+                elif res not in CLEAN or sent == j:
+                    if sent == j:
+                        results.append(res)      # an exception although every kept tree is in: not an accession error
+                        line[2] = str(nops)
+                    break
+            elif (len(ta) - before) != len(kept) and not failed:
+                failed = True
+                fail("per-tree", "op %d: reading %d source(s) with burn-in %d must keep %d trees (every source loses its first %d), the collection grew by %d" % (
+                    k, len(files), offset, len(kept), offset, len(ta) - before))
             continue
         if name != "new" and any(x >= len(regs) for x in ((op[1],) if name in ("add", "ins") else (op[1], op[2]))):
             continue      # refers to the result of a `+` that was rejected: not part of the history
@@ -839,6 +931,8 @@ def exec_history(ctx, dendropy, case):
             continue
         if o.trees and (merged_nonempty or merged_empty) and serial_differs(ctx, dendropy, tns, fail, i, o, qres):
             failed = True
+    if tmpdir[0] is not None:
+        shutil.rmtree(tmpdir[0], ignore_errors=True)
     return " ".join(line), results, canons, nontrivial_case
 
 
@@ -1000,6 +1094,9 @@ def compare_model(ctx, case, line, results, canons, out):
         if freq_differs(ci["freq"], cm["freq"]):
             ctx.disagree("hist array %d freq" % i, case, ci["freq"], cm["freq"])
             return
+        if means_differ(ci["means"], cm["means"]):
+            ctx.disagree("hist array %d mean edge length / node age per split" % i, case, ci["means"], cm["means"])
+            return
         if (scores is None) != (qerr is not None and "AssertionError" in qerr):
             if qerr is None or scores is None:
                 ctx.disagree("hist array %d queries" % i, case, qerr or "queries ok", "scores %s" % ("assert" if scores is None else "ok"))
@@ -1109,6 +1206,16 @@ def gen_history(rng, max_taxa=7, max_ops=14):
             s = rng.randrange(count) if rng.random() < 0.92 else d
             ops.append([rng.choice(["upd", "upd", "ext", "iadd"]), d, s])
             sizes[d] += sizes[s]
+        elif x < 0.89:
+            # several sources read in one call, with a burn-in that every source loses
+            d = rng.randrange(count)
+            r = reg_root[d] if rng.random() < 0.85 else rng.choice(rootings)
+            nf = rng.randint(1, 3)
+            files = [[dict(new_tree(d), rooted=r) for _ in range(rng.randint(1, 3))] for _ in range(nf)]   # (an empty source is a reader error: C20)
+            offset = rng.choice([0, 0, 1, 1, 2])
+            how = rng.choice(["files", "files", "handles", "data"])
+            ops.append(["read", d, offset, files, how, r])
+            sizes[d] += sum(len(f) for f in files)
         elif x < 0.93:
             ops.append(["q", rng.randrange(count), rng.choice(["cons", "mcc", "summarize", "props_ea", "props_ae", "freq", "restore"])])
         elif x < 0.97 and count < 6:
@@ -1141,7 +1248,8 @@ def partition_history(specs, flags, decl, parts, arrival, merge_op, master_decl)
 def run_hist_case(ctx, dendropy, case, pending, kind):
     line, results, canons, nontriv = exec_history(ctx, dendropy, case)
     key = [case["ntaxa"], [[o if not isinstance(o, dict) else [o["toks"], o["rooted"], o["weight"]] for o in op] for op in case["ops"]]]
-    ctx.case(key, nontriv, sample={"mode": "hist", "ntaxa": case["ntaxa"], "ops": [[o if not isinstance(o, dict) else "<tree %s nodes>" % o["toks"][0] for o in op] for op in case["ops"]]}, kind=kind)
+    ctx.case(key, nontriv, sample={"mode": "hist", "ntaxa": case["ntaxa"], "ops": [[("<tree %s nodes>" % o["toks"][0]) if isinstance(o, dict) else (("<files of %s trees>" % [len(f) for f in o]) if isinstance(o, list) else o)
+                                                                                 for o in op] for op in case["ops"]]}, kind=kind)
     for op in case["ops"]:
         ctx.count("op:" + op[0])
     for r in results:
@@ -1371,7 +1479,7 @@ def choice_policy(choices):
 
 
 def run_parallel(dendropy, sumtrees, files, nworkers, assignment, arrival, rooted, tns, use_weights=True, flags=(0, 1, 1),
-                 choices=None, sim_out=None):
+                 choices=None, sim_out=None, burnin=0, logfreq=0):
     sim = Sim(choice_policy(choices) if choices is not None else assignment_policy(assignment), arrival)
     if sim_out is not None:
         sim_out.append(sim)
@@ -1398,8 +1506,8 @@ def run_parallel(dendropy, sumtrees, files, nworkers, assignment, arrival, roote
     try:
         tp = sumtrees.TreeProcessor(is_source_trees_rooted=rooted, ignore_edge_lengths=bool(flags[0]), ignore_node_ages=bool(flags[1]),
                                     use_tree_weights=use_weights, ultrametricity_precision=0.0001, taxon_label_age_map=None,
-                                    num_processes=nworkers, log_frequency=0, messenger=None, debug_mode=True)
-        return tp.parallel_analyze_trees(tree_sources=files, schema="newick", taxon_namespace=tns)
+                                    num_processes=nworkers, log_frequency=logfreq, messenger=None, debug_mode=True)
+        return tp.parallel_analyze_trees(tree_sources=files, schema="newick", taxon_namespace=tns, tree_offset=burnin)
     finally:
         for obj, name, old, had in reversed(saved):
             if had:
@@ -1411,11 +1519,11 @@ def run_parallel(dendropy, sumtrees, files, nworkers, assignment, arrival, roote
                     pass
 
 
-def run_serial(dendropy, sumtrees, files, rooted, tns, use_weights=True, flags=(0, 1, 1)):
+def run_serial(dendropy, sumtrees, files, rooted, tns, use_weights=True, flags=(0, 1, 1), burnin=0, logfreq=0):
     tp = sumtrees.TreeProcessor(is_source_trees_rooted=rooted, ignore_edge_lengths=bool(flags[0]), ignore_node_ages=bool(flags[1]),
                                 use_tree_weights=use_weights, ultrametricity_precision=0.0001, taxon_label_age_map=None,
-                                num_processes=1, log_frequency=0, messenger=None, debug_mode=True)
-    return tp.serial_analyze_trees(files, "newick", taxon_namespace=tns)
+                                num_processes=1, log_frequency=logfreq, messenger=None, debug_mode=True)
+    return tp.serial_analyze_trees(files, "newick", taxon_namespace=tns, tree_offset=burnin)
 
 
 def effective_rooting(src_rooted, token):
@@ -1455,7 +1563,9 @@ def exec_sched(ctx, dendropy, case, sf=None, serial_cache=None):
         flags = list(case.get("flags", [0, 1, 1]))
         uw = flags[2]
         # without --weighted-trees the reader does not even store the weights
-        recs = [[record(dict(s, rooted=eff, weight=s["weight"] if uw else None), not flags[1]) for s in f] for f in case["files"]]
+        burnin, logfreq = case.get("burnin", 0), case.get("logfreq", 0)
+        # the burn-in is lost by EVERY source, whoever reads it and in whichever call
+        recs = [[record(dict(s, rooted=eff, weight=s["weight"] if uw else None), not flags[1]) for s in f[burnin:]] for f in case["files"]]
         nw = case["nworkers"]
         par = ser = None
         perr = serr = None
@@ -1463,7 +1573,8 @@ def exec_sched(ctx, dendropy, case, sf=None, serial_cache=None):
         try:
             with time_limit(60):
                 par = run_parallel(dendropy, sumtrees, sf.paths, nw, case.get("assignment"), case["arrival"], src,
-                                   dendropy.TaxonNamespace(labels), bool(uw), flags, choices=case.get("choices"), sim_out=sims)
+                                   dendropy.TaxonNamespace(labels), bool(uw), flags, choices=case.get("choices"), sim_out=sims,
+                                   burnin=burnin, logfreq=logfreq)
         except Exception as e:   # noqa
             perr = e
         # which worker actually read which file (nw = nobody: the file was dropped)
@@ -1495,7 +1606,7 @@ def exec_sched(ctx, dendropy, case, sf=None, serial_cache=None):
         else:
             try:
                 with time_limit(60):
-                    ser = run_serial(dendropy, sumtrees, sf.paths, src, dendropy.TaxonNamespace(labels), bool(uw), flags)
+                    ser = run_serial(dendropy, sumtrees, sf.paths, src, dendropy.TaxonNamespace(labels), bool(uw), flags, burnin, logfreq)
             except Exception as e:   # noqa
                 serr = e
             if serial_cache is not None:
@@ -1669,7 +1780,10 @@ def gen_sched_files(rng, nfiles, max_taxa=6, max_trees=3, allow_empty_file=False
         rooted, token = True, rng.choice([None, "R", "U"])
     else:
         rooted, token = False, rng.choice([None, "R", "U"])
-    return {"mode": "sched", "ntaxa": ntaxa, "files": files, "rooted": rooted, "token": token, "flags": flags}
+    # burn-in (every source loses its first trees) and the two reading loops of the serial run (quiet / with progress logging)
+    burnin = rng.choice([0, 0, 1, 1, 2])
+    return {"mode": "sched", "ntaxa": ntaxa, "files": files, "rooted": rooted, "token": token, "flags": flags,
+            "burnin": burnin, "logfreq": rng.choice([0, 0, 1, 3])}
 
 
 def next_choices(trace):
@@ -1746,7 +1860,7 @@ def exec_cli(ctx, dendropy, case):
         for name, extra in (("serial", []), ("par", case["mp"])):
             out = os.path.join(sf.dir, "out-%s.tre" % name)
             args = list(sf.paths) + ["-i", "newick", "-o", out, "-F", "newick", "-q", "--no-analysis-metainformation", "-r",
-                                     "--weighted-trees"] + extra
+                                     "--weighted-trees", "-b", str(case.get("burnin", 0))] + extra
             if case["rooted"] is True:
                 args.append("--rooted")
             elif case["rooted"] is False:
@@ -1777,13 +1891,13 @@ def exec_cli(ctx, dendropy, case):
 def run(ctx):
     dendropy = __import__("dendropy")
     rng = ctx.rng
-    ctx.set_budget(34, 780)
+    ctx.set_budget(30, 780)
     pending = []
     # ---- the two hand-reproduced defects, always first (cheap, deterministic)
     for case in seed_cases():
         run_any(ctx, dendropy, case, pending)
     # ---- random histories
-    t_hist = ctx.pick(17, 200)
+    t_hist = ctx.pick(15, 200)
     n = 0
     while n < ctx.pick(700, 12000) and (ctx.budget_s - ctx.time_left()) < t_hist:
         case = gen_history(rng, max_taxa=ctx.pick(7, 9), max_ops=ctx.pick(14, 20))
@@ -1801,7 +1915,7 @@ def run(ctx):
             flush(ctx, pending)
     flush(ctx, pending)
     # ---- sampled schedules on the real SumTrees code
-    t_sched = ctx.pick(7, 60)
+    t_sched = ctx.pick(6, 60)
     t0 = ctx.budget_s - ctx.time_left()
     k = 0
     while k < ctx.pick(200, 1500) and (ctx.budget_s - ctx.time_left()) - t0 < t_sched:
